@@ -165,7 +165,7 @@ def _item_start(src, code, kw_idx):
 def _in_multiline_attr(src, ps):
     # crude: look upwards up to 12 lines for a line starting with '#[' that has no closing ']'
     q = ps
-    for _ in range(12):
+    for _ in range(60):
         if q <= 0:
             return False
         pe = q - 1
